@@ -82,6 +82,23 @@ def exported_module(L, with_tables=True):
         out.append(f"{name} == <<" + ", ".join(ents) + ">>")
         arms.append(f'n = {n} /\\ conn = "{c}" -> {name}')
     out.append("TableOf(n, conn) == CASE " + "\n   [] ".join(arms) + "\n   [] OTHER -> <<>>")
+    # gate lists of the table circuits for the small registers (used by the design-level Pipeline model)
+    garms = []
+    for (n, c) in SUPPORTED:
+        if n > 3:
+            continue
+        ents = []
+        if with_tables:
+            from . import impl as _impl
+            for i in range(NUM_CLASSES[n]):
+                try:
+                    g = _impl.gates_of(L.circuit_lookup.stabilizer_circuit_lookup(n, c, i).parse_circuit())
+                    ents.append(tlc.to_tla(g))
+                except Exception:
+                    ents.append("<<>>")
+        out.append(f"Gat{n}{c} == <<" + ", ".join(ents) + ">>")
+        garms.append(f'n = {n} /\\ conn = "{c}" -> Gat{n}{c}')
+    out.append("TableGatesOf(n, conn) == CASE " + "\n   [] ".join(garms) + "\n   [] OTHER -> <<>>")
     out.append("=============================================================================")
     text = "\n".join(out) + "\n"
     _export_cache[key] = text
